@@ -47,16 +47,16 @@ theorem core_unchecked_same (w S : Nat) (args : List Int) (pr : Core.CProg) (hw 
     (hwf : Core.wfProg pr = true) (hlen : args.length = pr.params.length)
     (fuel : Nat) (env' : Core.Env) (tr : List Ev) (res : Core.Res)
     (hex : Core.srcRun ⟨w, S, true⟩ fuel args pr = some (env', tr, res))
-    (hnf : res ≠ .div0) (hroom : Core.pkS w (Core.entryOff w pr.params) pr.body ≤ S * w + args.length * w + w) :
+    (hnf : res ≠ .div0) (hno : res ≠ .ovf) (hroom : Core.pkS w (Core.entryOff w pr.params) pr.body ≤ S * w + args.length * w + w) :
     ∃ m1 m0,
       Exec (sphinx (Core.coreProg ⟨w, S, true⟩ pr)) (Core.coreInit ⟨w, S, true⟩ args pr) (tr ++ [Ev.flag "win"])
         ⟨tntPc (Core.progLen true pr), m1⟩ ∧
       Exec (sphinx (Core.coreProg ⟨w, S, false⟩ pr)) (Core.coreInit ⟨w, S, false⟩ args pr) (tr ++ [Ev.flag "win"])
         ⟨tntPc (Core.progLen false pr), m0⟩ := by
   obtain ⟨m1, h1, _⟩ := Core.core_correct ⟨w, S, true⟩ args pr hw hB1 hSE hwf hlen fuel env' tr res hex
-    (fun h => absurd h hnf) hroom
+    (fun h => h.elim (fun h => absurd h hnf) (fun h => absurd h hno)) (fun h => absurd h hno) hroom
   obtain ⟨m0, h0, _⟩ := Core.core_correct ⟨w, S, false⟩ args pr hw hB0 hSE hwf hlen fuel env' tr res hex
-    (fun h => absurd h hnf) hroom
+    (fun h => h.elim (fun h => absurd h hnf) (fun h => absurd h hno)) (fun h => absurd h hno) hroom
   have ht : Core.terminalEvs res = [Ev.flag "win"] := by
     cases res with
     | div0 => exact absurd rfl hnf
@@ -64,6 +64,7 @@ theorem core_unchecked_same (w S : Nat) (args : List Int) (pr : Core.CProg) (hw 
     | returned => rfl
     | defeat => rfl
     | retv v => rfl
+    | ovf => exact absurd rfl hno
   rw [ht] at h1 h0
   exact ⟨m1, m0, h1, h0⟩
 
